@@ -1046,6 +1046,8 @@ class Verifier(Calls):
                         s.frames[0].loc[gname] = gv
                     for inv in c.closure_invariant:
                         self.prove(s, self.eval_spec(s, inv, s.frame, old=old), 'closure-inv', fn, inv)
+                    for e in c.stable:
+                        self.prove(s, self.eval_spec(s, e, s.frame, old=old, result=rv), 'stable', fn, e)
                     self.check_frame(s, old, c, fn)
                 elif kind == 'raise':
                     self.exits += 1
